@@ -32,9 +32,18 @@ CLAIMED = {
  "C08": dict(
    text="pSyncPipeCopy with a scripted source connection (1..3 reads of symbolic size, then a read error) and the 1 s ticker replaced by a channel the harness feeds before any read: every REPLCONF ACK after full sync must equal start offset + bytes received so far, be non-decreasing and never ahead, 0 before full sync; returned byte count and forwarded bytes exact; after a drop runIncrementalSync must ask PSYNC runid (start + received + 1); parser tagging offset = start + decoder position (VF_C03_Parse); SendPSyncContinue request side",
    note=NOTE_COMMON + "two known findings (acknowledged offset runs ahead from the second tick; PSYNC after a drop re-requests bytes received since the last tick), both from the same bookkeeping; wall-clock durations replaced by event order"),
+ "C06": dict(
+   text="the filter predicates (FilterKey with symbolic keys <= 4 bytes and two symbolic prefixes <= 3 bytes, checkpoint keys, FilterDB, FilterSlot, FilterCommands in any letter case) against reference predicates, and their application in each data path against the same references: incremental (parseSourceCommand), full sync (syncRDBFile incl. slot list and Lua entries), restore mode (restoreRDBFile), rump (fetcher/doFetch/getSourceDbList)",
+   note=NOTE_COMMON + "one entry/command stream per run as bounded in C03/C07/C16; restoreCommand's inner-usage replay and main/sanitize.go are outside"),
+ "C07": dict(
+   text="syncRDBFile and restoreRDBFile with the loader replaced by a pre-filled closed channel of m <= 3 entries (symbolic db, key, one Lua script entry, one failing restore), 1..2 workers (3 thorough), per-worker connect failure, filters and target.db: under every distribution of entries over workers and interleaving within the bound each passing entry is restored exactly once on a connection whose selected database is the entry's (or target.db), filtered ones never, success only after the channel is drained, a failed restore or connect is reported",
+   note=NOTE_COMMON + "RestoreRdbEntry is replaced by a recording stub here (its own behaviour is C02); preemption bound 1; time.After never fires"),
  "C09": dict(
    text="ring offset lemmas (roffset/woffset) for arbitrary 64-bit positions; one-step refinement of memBuffer/fileBuffer readSome/writeSome from an arbitrary valid symbolic state against a ghost stream; sequential close rules on the real pipe; protocol runs with a writer goroutine and the reader in the main goroutine where every interleaving at mutex/cond/channel granularity (preemption bound 2, thorough 3) is a branch of the search, with deadlock detection and an explicit hand-shake so that wake-up must come from progress, not from close",
    note=NOTE_COMMON + "concrete ring sizes in the lemmas (a symbolic size is not decided within 60 s by any back end); step lemmas on an 8-byte ring; stream-length induction on paper; sync.Mutex/Cond/WaitGroup are engine primitives; schedule-dependent counterexamples are replayed by engine-concrete re-execution"),
+ "C16": dict(
+   text="dbRumperExecutor.exec with fetcher, writer, receiver and the statistics loop as goroutines against a model source (INFO keyspace, SELECT, pipelined DUMP/PTTL over 2 databases, 1..2 scan pages incl. an empty one, keys that vanished before DUMP, no-expiry and symbolic positive PTTL, symbolic payloads, big-key expansion through RestoreBigkey) and two model-target connections sharing a keyspace, batch sizes 1..2, key_exists none/rewrite, target.db, db and key filters: every passing existing key arrives with payload/elements, ttl (none stays none) and database; vanished keys are skipped; the executor terminates (no deadlock)",
+   note=NOTE_COMMON + "delay-bounded scheduling (default round-robin successor, <= 1 deviation quick / 2 thorough); the statistics ticker fires only at quiescence; the SCAN reply parser (reflection) is replaced by a harness scanner; target empty at start"),
  "C18": dict(
    text="offset lemmas (roffset/woffset) for arbitrary 64-bit positions; one-step refinement of the memory and file backed stores (readSomeAt from an arbitrary offset and write position: exact bytes or ErrInvalidOffset exactly when overwritten/future; writeSome; dataRange) against a ghost stream; sequential API behaviour (Reader, SeekTo/IsValid, wrap beyond capacity, close); protocol runs with one writer and up to two blocked readers under every interleaving (Broadcast wake-up, close wakes all with an error, no deadlock)",
    note=NOTE_COMMON + "concrete ring sizes in the lemmas; step lemmas on an 8-byte ring; induction over histories on paper; sync primitives are engine primitives; *os.File is a byte-store stub in the file flavour"),
